@@ -321,7 +321,7 @@ func (e *Exec) checkFrameRange(st *State, key string, ref, lo, hi Term, p token.
 	if e.noFrame || e.contract == nil {
 		return
 	}
-	allowed := []Term{Ge(ref, e.alloc0), Ge(lo, hi)}
+	allowed := []Term{Ge(ref, e.alloc0), Ge(lo, hi), Eq(ref, IntLit(0))}
 	for _, m := range e.modRefs {
 		if m.key != key {
 			continue
